@@ -1085,6 +1085,32 @@ class C18(Check):
             return words
         return None
 
+    OUT_PUNCT = '+>~,:{;)]/=}[('
+
+    @classmethod
+    def plain_word(cls, t):
+        """`Plain` of Lemmas/NumPV.lean: the hypothesis of the T18.5 theorems on the text of every leaf"""
+        return (any(c not in cls.OUT_PUNCT and not c.isspace() for c in t)
+                and not (t.endswith(' ') and not t.endswith('\\ ')) and not t.startswith('*'))
+
+    def leaves_not_plain(self, v):
+        """the leaves of a component (its function names and the written texts of its non-function parts, under the
+        preferences in force) that are not ordinary words"""
+        n = type(v).__name__
+        if n == 'CSSFunction' or (n == 'ColorValue' and v.colorType == 'FUNCTION'):
+            bad = []
+            for i, it in enumerate(v.seq):
+                if isinstance(it.value, str):
+                    if i == 0 and not self.plain_word(it.value):
+                        bad.append(it.value)
+                else:
+                    bad += self.leaves_not_plain(it.value)
+            return bad
+        t = v.cssText
+        if n == 'CSSComment' and t == '':
+            return []           # keepComments off: no item is written (outside the theorems, inside the model)
+        return [] if self.plain_word(t) else [t]
+
     def pv_words(self, pv):
         words = []
         for it in pv.seq:
@@ -1217,8 +1243,12 @@ class C18(Check):
                         old = ps.apply(cu)
                         try:
                             cases.append((t, ps, keep, pv.cssText))
+                            bad = [b for it in pv.seq if not isinstance(it.value, str) for b in self.leaves_not_plain(it.value)]
                         finally:
                             ps.restore(cu, old)
+                        if bad:
+                            ctx.disagree('every leaf of a value is written as an ordinary word (hypothesis `Plain` of T18.5)',
+                                         {'text': t, 'prefs': repr(ps)}, bad, 'Plain')
                 finally:
                     prefs.keepComments = True
         out = ctx.driver(lines) if ctx.model_ok else []
